@@ -122,8 +122,9 @@ func init() {
 		for k := 131; k <= kmax; k++ {
 			if mine() {
 				emit(runNumDigitsPow10(k, -1, k%3 == 0))
+				emit(runNumDigitsPow10(k, 0, k%5 == 0)) // an estimate that is too low shows only at or above 10^k
 				if k%4 == 0 {
-					emit(runNumDigitsPow10(k, k%3-1, k%5 == 0))
+					emit(runNumDigitsPow10(k, 1, k%7 == 0))
 				}
 			}
 		}
